@@ -127,6 +127,9 @@ HOWS = ["feature_setitem", "attr_setitem", "update_dict", "update_kwargs", "upda
         "delete"]
 
 
+PARAM_NAMES = ["other", "args", "kwargs", "key", "value", "k", "v", "d", "mapping", "iterable", "E", "F", "m", "default", "item"]
+
+
 def ops(rng, base_keys, n=None):
     """Operations on the attributes of one feature.  Each: {"how", "items": [[key, form]], "switch": bool}
     ("switch" False = the operation is carried out while always_return_list is False)."""
@@ -137,7 +140,13 @@ def ops(rng, base_keys, n=None):
         items = []
         m = 1 if how in ("feature_setitem", "attr_setitem", "setdefault", "delete") else rng.randrange(1, 4)
         for _ in range(m):
-            if keys and rng.random() < 0.35:
+            if how in ("update_kwargs", "update_dict", "attr_setitem") and rng.random() < 0.25:
+                # attribute names that happen to be parameter names of mapping methods ('self' excluded: as a keyword it
+                # collides with the bound object in any Python-level update(self, ...))
+                k = rng.choice(PARAM_NAMES)
+                if k not in keys:
+                    keys.append(k)
+            elif keys and rng.random() < 0.35:
                 k = rng.choice(keys)
             else:
                 k = ukey(rng, keys)
